@@ -82,6 +82,23 @@ theorem vte_partition_witness_after_fix : Generated.csiDropsIgnored = false →
       strip witness10.flatten = .ok [0x61, 0x61, 0x61, 0x61, 0x61, 0xc3, 0xa9, 0x61, 0x61, 0x61, 0x61] := by
   decide
 
+/-- The same gap for sequences that end without dispatching an element: `é ESC[é LF LF LF ESC[m`
+(C0 controls executed inside an unfinished CSI sequence count as text, its other bytes as nothing):
+`Text(0,5)` ends inside the second `é`. Still so on the tree without
+notes/fix-ansi-iterator-aborted-sequences.diff (`iteratorAbortedAsText`, read from the source). -/
+def witnessAborted : Bytes := [0xc3, 0xa9, 0x1b, 0x5b, 0xc3, 0xa9, 0x0a, 0x0a, 0x0a, 0x1b, 0x5b, 0x6d]
+
+theorem vte_partition_aborted_false : Generated.iteratorAbortedAsText = false →
+    isPartition witnessAborted = false ∧
+      strip witnessAborted = .error "byte index is out of range or not a char boundary" := by
+  decide
+
+/-- With that repair the unfinished sequence's bytes are accounted for as text and the line is
+partitioned. -/
+theorem vte_partition_aborted_after_fix : Generated.iteratorAbortedAsText = true →
+    isPartition witnessAborted = true ∧ elements witnessAborted = [⟨.text, 0, 9⟩, ⟨.sgr [[0]], 9, 12⟩] := by
+  decide
+
 /-- The positive part: on every benign line — characters, plain CSI/SGR sequences with at most 32
 parameters, OSC strings; everything git and delta emit — the element ranges are contiguous, start
 at 0, end at the length of the string and lie on char boundaries. -/
